@@ -32,6 +32,7 @@ type NetConfig struct {
 	PollWorkers    int           // epoll model: concurrent serve invocations per connection
 	SilentPipe     bool          // writes after a cut succeed silently instead of failing with EPIPE
 	LateWriteErr   int           // ‰: a write delivers its bytes and then reports an error (the connection stays usable)
+	ResetAsTimeout bool          // a reset is seen by the reader as ETIMEDOUT (keep-alive / retransmission gave up): an error hslam/socket does not translate to io.EOF
 }
 
 // Fault kinds counted when they actually fire.
@@ -471,6 +472,7 @@ var (
 	errWriteClosed = opErr("write", net.ErrClosed)
 	errReset       = opErr("read", os.NewSyscallError("read", syscall.ECONNRESET))
 	errPipe        = opErr("write", os.NewSyscallError("write", syscall.EPIPE))
+	errTimedOut    = opErr("read", os.NewSyscallError("read", syscall.ETIMEDOUT))
 )
 
 // avail returns how many buffered bytes have arrived.
@@ -529,6 +531,9 @@ func (e *End) Read(b []byte) (int, error) {
 		}
 		if next == 0 && s.ended != 0 {
 			if s.ended == KindRST {
+				if e.pipe.n.Cfg.ResetAsTimeout {
+					return 0, errTimedOut
+				}
 				return 0, errReset
 			}
 			return 0, io.EOF
